@@ -11,6 +11,12 @@ package diodeh
 //     return of each Close all of them must have been handed to the wrapped writer (or be covered
 //     by Alerter counts).  On the unchanged code every Close waits for the poll goroutine to end,
 //     which happens after the ring is empty, so the demand holds on every schedule.
+//     The same histories are run for C12 ("Close returns in every schedule"), where only the return
+//     of EVERY Close call is judged (within bbLimit, no panic) and nothing about the messages; both
+//     properties also get the idle shapes: a writer that never saw a Write, and one whose messages
+//     have all been delivered and whose consumer is parked/asleep, closed two or three times - at
+//     once, staggered, one after the other without and with a pause (a deferred Close after an
+//     explicit one on the shutdown path).
 //
 // (2) bbCloseWhileStalledAndWriting (C12): "Close returns in every schedule ... for all
 //     interleavings of one or more producers, the consumer loop and the cancel path": Close is
@@ -59,19 +65,28 @@ type ccCfg struct {
 	closers   int
 	stagger   time.Duration // closer i calls Close i*stagger after closer 0; < 0: one after the other (sequential)
 	closer    bool          // the wrapped writer implements io.Closer
+	idle      bool          // the first Close is called after every message has been handed to the wrapped writer and the consumer went idle
+	pause     time.Duration // sequential Close calls: pause between the return of one and the call of the next
 }
 
 func (x ccCfg) json() map[string]interface{} {
 	st := x.stagger.String()
 	if x.stagger < 0 {
-		st = "sequential: each Close is called after the previous one returned"
+		st = fmt.Sprintf("sequential: each Close is called %v after the previous one returned", x.pause)
 	}
-	return map[string]interface{}{"scenario": "several-close-calls-over-a-backlog", "poll": x.poll.String(), "ring": x.ring, "producers": x.producers,
+	sc := "several-close-calls-over-a-backlog"
+	if x.idle {
+		sc = "several-close-calls-on-an-idle-writer"
+	}
+	return map[string]interface{}{"scenario": sc, "poll": x.poll.String(), "ring": x.ring, "producers": x.producers,
 		"messages_written_before_the_first_close": x.backlog, "wrapped_writer_takes_per_write": x.delay.String(), "close_calls": x.closers,
-		"delay_between_close_calls": st, "wrapped_writer_is_io_closer": x.closer}
+		"delay_between_close_calls": st, "wrapped_writer_is_io_closer": x.closer,
+		"first_close_called_after_everything_was_delivered_and_the_consumer_idle": x.idle}
 }
 
-func runConcurrentClosers(x ccCfg) *hlib.Violation {
+// runConcurrentClosers: judgeDrain = C11 (every Close that returned has drained); otherwise (C12) only the return of
+// every Close call is judged.
+func runConcurrentClosers(x ccCfg, judgeDrain bool) *hlib.Violation {
 	cs := x.json()
 	sink := &slowSink{delay: x.delay}
 	var reported int64
@@ -93,6 +108,30 @@ func runConcurrentClosers(x ccCfg) *hlib.Violation {
 		}(g)
 	}
 	wg.Wait() // every Write has returned
+	if x.idle {
+		// every message is handed over and the consumer finds the ring empty and parks / sleeps.  (A message written
+		// to an idle waiter can sit unnoticed - the known lost wake-up; one more Write wakes the consumer.)
+		delivered := func() bool {
+			for t := time.Now(); time.Since(t) < 200*time.Millisecond; {
+				if atomic.LoadInt64(&sink.begun)+atomic.LoadInt64(&reported) >= int64(x.backlog) {
+					return true
+				}
+				time.Sleep(100 * time.Microsecond)
+			}
+			return false
+		}
+		ok := delivered()
+		for try := 0; try < 25 && !ok; try++ {
+			dw.Write([]byte(fmt.Sprintf("{\"w\":\"i%d\"}\n", x.backlog)))
+			x.backlog++
+			ok = delivered()
+		}
+		if !ok {
+			within(func() { dw.Close() })
+			return &hlib.Violation{Key: "consumer-never-delivers", Monitor: "black-box several-close-calls", Desc: fmt.Sprintf("%d Writes over 5 s into a ring of %d, the wrapped writer was called %d times", x.backlog, x.ring, atomic.LoadInt64(&sink.begun)), Case: cs}
+		}
+		time.Sleep(5*time.Millisecond + 2*x.poll)
+	}
 	type closeRes struct {
 		returned  bool
 		panicked  string
@@ -117,6 +156,9 @@ func runConcurrentClosers(x ccCfg) *hlib.Violation {
 	all := func() {
 		if x.stagger < 0 {
 			for i := 0; i < x.closers; i++ {
+				if i > 0 {
+					time.Sleep(x.pause)
+				}
 				one(i)
 			}
 			return
@@ -143,7 +185,17 @@ func runConcurrentClosers(x ccCfg) *hlib.Violation {
 		}
 	}
 	if !finished {
-		return &hlib.Violation{Key: "close-never-returns", Monitor: "black-box several-close-calls", Desc: fmt.Sprintf("%d Close calls on one Writer: not all returned within %v", x.closers, bbLimit), Case: cs, Observed: obs}
+		stuck := []int{}
+		for i, r := range res {
+			if !r.returned {
+				stuck = append(stuck, i)
+			}
+		}
+		return &hlib.Violation{Key: "close-never-returns", Monitor: "black-box several-close-calls", Desc: fmt.Sprintf("%d Close calls on one Writer: not all returned within %v (Close call(s) %v did not return; numbered in call order)", x.closers, bbLimit, stuck), Case: cs, Observed: obs,
+			Expected: "every Close call returns"}
+	}
+	if !judgeDrain {
+		return nil
 	}
 	for i, r := range res {
 		if r.delivered+r.reported < int64(x.backlog) {
@@ -156,32 +208,53 @@ func runConcurrentClosers(x ccCfg) *hlib.Violation {
 	return nil
 }
 
-func bbConcurrentClosers(c *hlib.Ctx) {
+// ccShape: idle = the first Close comes after everything was delivered (backlog 0: the writer never saw a Write)
+type ccShape struct {
+	ring, backlog int
+	delay         time.Duration
+	idle          bool
+}
+
+// bbConcurrentClosers: judgeDrain = true for C11 (2, 3, 8 Close calls; at once, 1 ms / 15 ms apart, one after the
+// other; three backlog shapes and the two idle shapes); false for C12 (2 or 3 Close calls; at once, 1 ms apart, one
+// after the other without and with a pause; one backlog shape and the two idle shapes): a Close that does not
+// return leaves a goroutine behind, so the C12 sweep is kept to a few dozen writers.
+func bbConcurrentClosers(c *hlib.Ctx, judgeDrain bool) {
 	var cfgs []ccCfg
 	n := 0
+	idleShapes := []ccShape{{16, 0, 0, true}, {16, 5, 0, true}}
+	closerCounts := []int{2, 3, 8}
+	staggers := []time.Duration{0, time.Millisecond, 15 * time.Millisecond, -1}
+	shapes := append([]ccShape{{64, 40, time.Millisecond, false}, {16, 12, 5 * time.Millisecond, false}, {256, 100, 300 * time.Microsecond, false}}, idleShapes...)
+	if !judgeDrain {
+		closerCounts = []int{2, 3}
+		staggers = []time.Duration{0, time.Millisecond, -1, -2}
+		shapes = append([]ccShape{{16, 12, 2 * time.Millisecond, false}}, idleShapes...)
+	}
 	for _, poll := range []time.Duration{0, 2 * time.Millisecond} {
-		for _, closers := range []int{2, 3, 8} {
-			for _, stagger := range []time.Duration{0, time.Millisecond, 15 * time.Millisecond, -1} {
-				for _, shape := range []struct {
-					ring, backlog int
-					delay         time.Duration
-				}{{64, 40, time.Millisecond}, {16, 12, 5 * time.Millisecond}, {256, 100, 300 * time.Microsecond}} {
+		for _, closers := range closerCounts {
+			for _, stagger := range staggers {
+				for _, shape := range shapes {
 					n++
-					cfgs = append(cfgs, ccCfg{poll: poll, ring: shape.ring, producers: 1 + n%3, backlog: shape.backlog, delay: shape.delay, closers: closers, stagger: stagger, closer: n%2 == 0})
+					x := ccCfg{poll: poll, ring: shape.ring, producers: 1 + n%3, backlog: shape.backlog, delay: shape.delay, closers: closers, stagger: stagger, closer: n%2 == 0, idle: shape.idle}
+					if stagger == -2 { // one after the other, with a pause
+						x.stagger, x.pause = -1, 20*time.Millisecond
+					}
+					cfgs = append(cfgs, x)
 				}
 			}
 		}
 	}
 	out := make([]*hlib.Violation, len(cfgs))
 	var wg sync.WaitGroup
-	sem := make(chan struct{}, 24)
+	sem := make(chan struct{}, 48)
 	for i := range cfgs {
 		wg.Add(1)
 		sem <- struct{}{}
 		go func(i int) {
 			defer wg.Done()
 			defer func() { <-sem }()
-			out[i] = runConcurrentClosers(cfgs[i])
+			out[i] = runConcurrentClosers(cfgs[i], judgeDrain)
 		}(i)
 	}
 	wg.Wait()
